@@ -10,7 +10,7 @@ import itertools
 import numpy as np
 
 from checks import specgen as SG
-from checks.common import hash_tag, relayout, xf_build, xf_names, canonical_probes, hermitian_exact_zero
+from checks.common import hash_tag, relayout, xf_build, xf_names, canonical_probes, hermitian_exact_zero, si_cells
 from qmc import gen as G
 from qmc import oracle as O
 from qmc.loader import load
@@ -23,8 +23,8 @@ RULE = (
     "(classical_qsvd_full | classical_qsvd R=1..min(m,n)); non-trivial = rank >= 1; distinct = sha1(input bytes, entry, R)"
 )
 BOUNDS = {
-    "quick": "m,n<=4, all 2^(p-1)-type compositions for every rank 0..p, values {4,2,1,1/2}, factors id/monomial/Householder, R=1..p",
-    "thorough": "m,n<=6, values {4,2,1,1/2,1/4}, 3 fill rows",
+    "quick": "m,n<=4, all 2^(p-1)-type compositions for every rank 0..p, values {4,2,1,1/2}, factors id/monomial/Householder, R=1..p; exhaustive small-integer cells: all 2x2 over {0,1,-1,i,j,k}, 3x3 over {-1,0,1} (every 4th), 2x3/3x2 over {0,1,i,j} (every 4th)",
+    "thorough": "m,n<=6, values {4,2,1,1/2,1/4}, 3 fill rows; exhaustive small-integer cells in full (2x2 over {0,1,-1,i,j,k}, 3x3 over {-1,0,1}, 2x3/3x2 over {0,1,i,j}) and 3x3 over {-1,0,1,2} (every 16th)",
 }
 THOROUGH_STREAMS = 8
 WALL_BUDGET = {"quick": 300, "thorough": 2400}
@@ -85,6 +85,11 @@ def cases(tier, seed):
             out.append({"key": f"full/xf/{m}x{n}/{nm}", "entry": "classical_qsvd_full", "m": m, "n": n, "vals": None, "kU": "mask", "kV": "mask", "row": 0, "R": None, "xf": nm})
             for R in sorted({1, min(m, n)}):
                 out.append({"key": f"trunc/xf/{m}x{n}/{nm}/R={R}", "entry": "classical_qsvd", "m": m, "n": n, "vals": None, "kU": "mask", "kV": "mask", "row": 0, "R": R, "xf": nm})
+    # exhaustive small-integer matrices (every matrix over a small alphabet: exact ties, exact dependencies, exactly invariant subspaces)
+    for m, n, names in si_cells(tier):
+        for nm in names:
+            out.append({"key": f"full/si/{m}x{n}/{nm}", "entry": "classical_qsvd_full", "m": m, "n": n, "vals": None, "kU": "mask", "kV": "mask", "row": 0, "R": None, "xf": nm, "_fixed": True})
+            out.append({"key": f"trunc/si/{m}x{n}/{nm}/R=1", "entry": "classical_qsvd", "m": m, "n": n, "vals": None, "kU": "mask", "kV": "mask", "row": 0, "R": 1, "xf": nm, "_fixed": True})
     # distinct singular values that are very close (relative gaps 3e-6 .. 2^-20), and values sitting just above float32 / float16
     # rounding midpoints relative to sigma_1 (a grouping of the 4-fold copies in reduced precision splits or merges them)
     SPECIAL_SPECTRA = {
